@@ -176,6 +176,42 @@ func RunImpl(src string, cfg *Config) *ImplRun {
 		r.Trace = append(r.Trace, "hosth:"+r.canonArgs(L, 1))
 		return L.GetTop()
 	}))
+	L.SetGlobal("goresume", L.NewFunction(func(L *lua.LState) int {
+		// drives a coroutine through the Go API: goresume(f, ...) -> true, results... | false, error value;
+		// the activation's own list must be what it was before the Resume
+		fn, ok := L.Get(1).(*lua.LFunction)
+		if !ok {
+			L.RaiseError("goresume: function expected")
+		}
+		var args []lua.LValue
+		for i := 2; i <= L.GetTop(); i++ {
+			args = append(args, L.Get(i))
+		}
+		top := L.GetTop()
+		th, _ := L.NewThread()
+		st, err, vals := L.Resume(th, fn, args...)
+		if L.GetTop() != top {
+			L.SetTop(0)
+			L.Push(lua.LString("GORESUME-CHANGED-THE-RESUMERS-STACK"))
+			L.Push(lua.LNumber(L.GetTop() - top))
+			return 2
+		}
+		L.SetTop(0)
+		if st == lua.ResumeError {
+			L.Push(lua.LFalse)
+			if ae, ok := err.(*lua.ApiError); ok && ae.Object != nil {
+				L.Push(ae.Object)
+			} else {
+				L.Push(lua.LString(err.Error()))
+			}
+			return 2
+		}
+		L.Push(lua.LTrue)
+		for _, v := range vals {
+			L.Push(v)
+		}
+		return 1 + len(vals)
+	}))
 	L.SetGlobal("snap", L.NewFunction(func(L *lua.LState) int {
 		r.Snaps = append(r.Snaps, lua.VerifSnapshot(L))
 		return 0
@@ -335,6 +371,16 @@ func RunModel(c *last.Chunk, cfg *Config) *ModelRun {
 	in.Register("hosth", func(in *lref.Interp, a []lref.Value) []lref.Value {
 		in.Emit("hosth:" + in.CanonList(a))
 		return append([]lref.Value(nil), a...)
+	})
+	in.Register("goresume", func(in *lref.Interp, a []lref.Value) []lref.Value {
+		if len(a) == 0 {
+			in.RTError("goresume: function expected")
+		}
+		ok, res := in.ResumeNew(a[0], a[1:])
+		if ok && len(res) == 0 {
+			res = []lref.Value{nil} // LState.Resume reports one nil when there are no values
+		}
+		return append([]lref.Value{ok}, res...)
 	})
 	in.Register("hostcall", func(in *lref.Interp, a []lref.Value) []lref.Value {
 		if len(a) == 0 {
